@@ -51,6 +51,8 @@ func (pa *parent) start() error {
 		args = append(args, "-detail")
 	}
 	cmd := exec.Command(os.Args[0], args...)
+	// with a -race build: the first data race ends the worker, the case it was serving is the replay
+	cmd.Env = append(os.Environ(), "GORACE=halt_on_error=1 exitcode=66")
 	in, _ := cmd.StdinPipe()
 	out, _ := cmd.StdoutPipe()
 	var eb bytes.Buffer
@@ -365,7 +367,7 @@ func main() {
 	procs := []int{1, 2, 4, 16}
 	// bounded-exhaustive family
 	ex := exhaustiveCases(procs)
-	stride := run.Scale(3, 1)
+	stride := 1
 	off := int(run.Seed) % stride
 	nEx := 0
 	for i, c := range ex {
@@ -382,7 +384,7 @@ func main() {
 	run.CountN("family:exhaustive-3-siblings", nEx)
 	run.Note("exhaustive family: %d of %d cases (modes^3 x release orders; stride %d selected by the seed)", nEx, len(ex), stride)
 	// abandonment family
-	nAb := run.Scale(500, 6000)
+	nAb := run.Scale(1200, 20000)
 	for i := 0; i < nAb && !pa.enough(); i++ {
 		c := abandonCase(rnd.Fork())
 		pa.record(c, pa.exec(&c), true)
@@ -392,7 +394,7 @@ func main() {
 	}
 	run.CountN("family:abandon", nAb)
 	// random family
-	nRand := run.Scale(2500, 40000)
+	nRand := run.Scale(6000, 120000)
 	for i := 0; i < nRand; i++ {
 		c := randomCase(rnd.Fork())
 		pa.record(c, pa.exec(&c), true)
@@ -404,6 +406,16 @@ func main() {
 		}
 	}
 	run.CountN("family:random", nRand)
+	// WebSocket family
+	nWS := run.Scale(400, 5000)
+	for i := 0; i < nWS && !pa.enough(); i++ {
+		c := wsCase(rnd.Fork())
+		pa.record(c, pa.exec(&c), true)
+		if i < 1 {
+			run.Sample(c)
+		}
+	}
+	run.CountN("family:websocket", nWS)
 	run.CountN("worker-restarts", pa.restarts)
 	pa.stop()
 	m := &hx.Model{Calls: pa.modelCall}
